@@ -60,17 +60,18 @@ func UnlockEnvelope(
 		// Try each matched keypair until one decrypts the grant.
 		encCtx := buildGrantEncContext(envelopeID, context, gi)
 		var innerData []byte
+	decrypt:
 		for ci, kpIdx := range kpIndexes {
-			priv, ok := matched[int(kpIdx)]
-			if !ok {
-				continue
+			// Every offered key that claims this keypair is tried: the first
+			// one may not be the key the grant was encrypted to.
+			for _, priv := range matched[int(kpIdx)] {
+				dec, err := peer.DecryptWithPrivKey(priv, encCtx, ciphertexts[ci])
+				if err != nil {
+					continue
+				}
+				innerData = dec
+				break decrypt
 			}
-			dec, err := peer.DecryptWithPrivKey(priv, encCtx, ciphertexts[ci])
-			if err != nil {
-				continue
-			}
-			innerData = dec
-			break
 		}
 		if innerData == nil {
 			continue
